@@ -1,7 +1,8 @@
 /-
   PCV.Proofs.LinCodeToy — a tiny concrete instance of the linear-code PCS over `K = ZMod 101` for the
   non-vacuity examples: the repetition code `x ↦ x ++ x`, a toy column hash and toy Merkle hashes
-  into `ℕ`, a `2 × 2` coefficient matrix.
+  into `ℕ`, a coefficient matrix of two rows (`2 × 2` for three or four coefficients), and the same
+  with the shape frozen at `2 × 2` (`toyFixedPP`, the Brakedown situation).
 -/
 import PCV.Proofs.LinCodeProto
 import PCV.Props.Examples
@@ -23,25 +24,43 @@ def toyE (x : List K) : List K := x ++ x
 def toyHashes : Hashes Nat :=
   ⟨fun d => d + 1, fun a b => 2 * a + 3 * b + 1, fun a b => 5 * a + 7 * b + 2, 0⟩
 
-/-- `2 × 2` matrices, repetition code (4 extended columns), well-formedness flag `wf` -/
+/-- two rows and, as in Ligero's `compute_dimensions`, `m = ⌈len / 2⌉` columns (`2 × 2` matrices for
+three or four coefficients, 4 extended columns; `2 × 1` for the zero polynomial `[0]`), repetition
+code, well-formedness flag `wf` -/
 def toyPP (wf : Bool) : Params K Nat :=
   { enc := fun x => .ok (toyE x)
-    dims := fun _ => (2, 2)
+    dims := fun len => (2, ceilDiv len 2)
     colHash := fun col => col.foldr (fun x acc => x.val + 101 * acc) 1
     hs := toyHashes
     checkWf := wf }
 
-theorem toy_encodes (wf : Bool) (coeffs : List K) (hfit : coeffs.length ≤ 4) :
+/-- the same code with the shape frozen at `2 × 2` whatever the polynomial (Brakedown's
+`compute_dimensions`: the shape is a constant of the parameters, made for three or four coefficients) -/
+def toyFixedPP (wf : Bool) : Params K Nat := { toyPP wf with dims := fun _ => (2, 2) }
+
+theorem toy_width (coeffs : List K) (hfit : 3 ≤ coeffs.length ∧ coeffs.length ≤ 4) :
+    ceilDiv (coeffsOrZero coeffs).length 2 = 2 := by
+  have hl : (coeffsOrZero coeffs).length = coeffs.length := by
+    unfold coeffsOrZero
+    cases coeffs with
+    | nil => simp at hfit
+    | cons x xs => rfl
+  rw [hl]
+  unfold ceilDiv
+  omega
+
+/-- three or four coefficients: the matrix is `2 × 2`, the codewords have length 4 (since fix D25 the
+width of the matrix is `⌈len / 2⌉`, so shorter vectors get a `2 × 1` matrix and codewords of length 2) -/
+theorem toy_encodes (wf : Bool) (coeffs : List K) (hfit : 3 ≤ coeffs.length ∧ coeffs.length ≤ 4) :
     Encodes (toyPP wf) coeffs toyE 4 where
-  lin := rep_isLinear 2
+  lin := by
+    have : (coeffMat (toyPP wf).dims coeffs).m = 2 := by
+      rw [coeffMat_m]; exact toy_width coeffs hfit
+    rw [this]; exact rep_isLinear 2
   enc _ _ := rfl
   rows := by simp [coeffMat_n, toyPP]
   two := by omega
-  fits := by
-    unfold fitsDims coeffsOrZero toyPP
-    by_cases he : coeffs.isEmpty
-    · simp [he]
-    · simp [he]; omega
+  fits := fitsDims_of_ceilDiv _ _ (fun _ => ⟨by simp [toyPP], rfl⟩)
 
 /-- run `commit`, `open`, `check` of the model on one polynomial -/
 def toyRun (wf : Bool) (point : Point K) (coeffs : List K) (o : Oracle K) (value : K) :
